@@ -179,7 +179,7 @@ func c06Enumerate(tier string, emit explore.Emit) {
 	add(errcore, ed, "errcore8", cd)
 	// names that are closed and used again (12 letters, not a subset of the families above beyond depth fd)
 	closeCore := xCloseCore
-	add(closeCore, cd, "close-core13", fd)
+	add(closeCore, cd, "close-core14", fd)
 	// pending input: each message arrives together with the head of the next one
 	leads := []int{1, 5}
 	ld := 3
